@@ -97,4 +97,11 @@ theorem Grid.eq_iff {a b : Grid} (h : a.coords.WF) :
     simp only [Grid.eq, Bool.and_eq_true, decide_eq_true_eq]
     exact ⟨h1, h2 ▸ Coords.eq_self h⟩
 
+theorem zip3_maps (a : List RegAxis) :
+    zip3? (a.map (·.delta)) (a.map (·.dim)) (a.map (·.zero)) = some a := by
+  simp only [zip3?, List.length_map, and_self, if_true, Option.some.injEq]
+  induction a with
+  | nil => rfl
+  | cons x xs ih => simp only [List.map_cons, List.zip_cons_cons, List.zipWith_cons_cons, ih]
+
 end HcipyVerif.Grid
